@@ -26,6 +26,7 @@ class Sim:
         os.makedirs(self.work)
         self.n = 0
         self.wall = 0.0
+        self.budget_retries = 0
 
     def run(self, spec: dict, mapseed: int = 1, timeout: float = 120.0, tag: str = "", gomaxprocs: int = 1) -> dict:
         """Execute one simulated process.  Returns the result record; a dead process is reported as
@@ -48,7 +49,15 @@ class Sim:
         try:
             if p.returncode == 0 and os.path.exists(op):
                 with open(op) as f:
-                    return json.load(f)
+                    res = json.load(f)
+                if res.get("status") == "steps_exceeded" and not spec.get("_final_budget"):
+                    # the step budget is the harness's, not the property's: a run that is merely long (many generated
+                    # files x many regenerations) is run again - same spec, same map seed, hence the same execution -
+                    # with fifteen times the budget, and only what is still running then is reported as not quiescent
+                    self.budget_retries += 1
+                    big = dict(spec, max_steps=15 * (spec.get("max_steps") or 20000), _final_budget=True)
+                    return self.run(big, mapseed=mapseed, timeout=timeout * 6, tag=tag, gomaxprocs=gomaxprocs)
+                return res
             err = p.stderr.decode("utf-8", "replace")
             if p.returncode == 3:
                 raise HarnessTrouble("simulator harness failure:\n" + err[-3000:])
